@@ -229,6 +229,18 @@ def sh_dyn_body_trailers(S):
         S.headers(sid, TRAILERS, fin=True)
 
 
+def sh_dyn_trailers_min(S):
+    """Second message: header block AND trailers each depend on their own fresh
+    dynamic-table insert (two insert instructions on the encoder stream); no body,
+    so that the joint encoder x message BFS stays small."""
+    S.prime()
+    a, h = _open(S, post=False)
+    b, _ = _open(S, post=False)
+    for sid in (a, b):
+        S.headers(sid, h)
+        S.headers(sid, TRAILERS, fin=True)
+
+
 def sh_dyn_acked(S):
     """As dyn, but the peer's decoder acknowledgements reach the sender before
     the third message."""
@@ -447,7 +459,8 @@ def sh_cut_wt(S):
 
 
 class Shape:
-    def __init__(self, fn, cls, roles=("client", "server"), quick=True, wt=False, pair=False):
+    def __init__(self, fn, cls, roles=("client", "server"), quick=True, wt=False, pair=False,
+                 pair_quick=False):
         self.fn = fn
         self.name = fn.__name__[3:]
         self.cls = cls  # normalised input class (goes into signatures)
@@ -455,6 +468,7 @@ class Shape:
         self.quick = quick
         self.wt = wt
         self.pair = pair  # also run the two-stream BFS (encoder stream x message)
+        self.pair_quick = pair_quick  # ... in the quick tier too
 
 
 BOTH = ("client", "server")
@@ -478,6 +492,7 @@ SHAPES = [
     Shape(sh_push_promise_last, "push_promise_last_frame", roles=("server",), quick=False),
     Shape(sh_dyn, "dynamic_table", pair=True),
     Shape(sh_dyn_body_trailers, "dynamic_table", quick=False, pair=True),
+    Shape(sh_dyn_trailers_min, "dynamic_table", pair=True, pair_quick=True),
     Shape(sh_dyn_acked, "dynamic_table", quick=False, pair=True),
     Shape(sh_dyn_push, "push_promise_dynamic_table", roles=("server",)),
     Shape(sh_dyn_push_min, "push_promise_dynamic_table", roles=("server",), quick=False, pair=True),
@@ -1108,7 +1123,7 @@ def plan_items(ctx):
                 for v in variants_for(sc, (x,)):
                     items_bfs.append(("bfs", sh.name, role, (x,), v))
             apps = app_streams(sc)
-            if sh.pair and (not quick or sh.name == "dyn"):
+            if sh.pair and (not quick or sh.name == "dyn" or sh.pair_quick):
                 enc = sc["enc"]
                 tgt = [a for a in apps if a != "d"]
                 # the message streams that reference the dynamic table: all but the first
@@ -1116,6 +1131,8 @@ def plan_items(ctx):
                     if quick and a != tgt[1]:
                         continue
                     for v in ("ctx_first", "all_after"):
+                        if quick and sh.pair_quick and v != "ctx_first":
+                            continue  # quick: one context order for the extra pair shape
                         items_bfs.append(("bfs", sh.name, role, (enc, a), v))
             if is_extra:
                 continue
